@@ -121,13 +121,13 @@ var damages = []string{"truncate", "garbage", "empty", "otherpkg", "selfdecl", "
 
 // Profile tunes scenario generation per property.
 type Profile struct {
-	FaultPM, BadPM, RmPM, DamagePM, RepeatPM, StdoutPM, InterjectPM int
-	Crash                                                           bool
+	FaultPM, BadPM, RmPM, DamagePM, RepeatPM, StdoutPM, InterjectPM, EvolvePM int
+	Crash                                                                     bool
 }
 
 // Profiles by property.
 var Profiles = map[string]Profile{
-	"C15": {FaultPM: 80, BadPM: 40, RmPM: 500, DamagePM: 300, RepeatPM: 300, StdoutPM: 30, Crash: true},
+	"C15": {FaultPM: 80, BadPM: 40, RmPM: 500, DamagePM: 250, RepeatPM: 250, StdoutPM: 30, EvolvePM: 200, Crash: true},
 	"C17": {FaultPM: 450, BadPM: 250, RmPM: 250, DamagePM: 120, RepeatPM: 120, StdoutPM: 120, InterjectPM: 30, Crash: true},
 	"C18": {FaultPM: 300, BadPM: 250, RmPM: 300, DamagePM: 150, RepeatPM: 100, StdoutPM: 150, InterjectPM: 150, Crash: false},
 }
@@ -165,11 +165,11 @@ func GenScenario(tp *tape.Tape, seed uint64, pf Profile) *Scenario {
 			sc.Steps = append(sc.Steps, Step{Kind: StepRepeat})
 		case hadRun && r >= 1000-pf.RepeatPM-pf.DamagePM:
 			sc.Steps = append(sc.Steps, Step{Kind: StepDamage, Damage: damages[tp.Int(len(damages))]})
-		case hadRun && r >= 1000-pf.RepeatPM-pf.DamagePM-80:
-			sc.Steps = append(sc.Steps, Step{Kind: StepEvolve, Damage: []string{"shape", "alias"}[tp.Int(2)]})
-		case hadRun && r >= 1000-pf.RepeatPM-pf.DamagePM-110:
+		case hadRun && r >= 1000-pf.RepeatPM-pf.DamagePM-80-pf.EvolvePM:
+			sc.Steps = append(sc.Steps, Step{Kind: StepEvolve, Damage: []string{"shape", "alias", "alias"}[tp.Int(3)]})
+		case hadRun && r >= 1000-pf.RepeatPM-pf.DamagePM-110-pf.EvolvePM:
 			sc.Steps = append(sc.Steps, Step{Kind: StepDelete})
-		case r >= 1000-pf.RepeatPM-pf.DamagePM-140 && r < 1000-pf.RepeatPM-pf.DamagePM-110:
+		case r >= 1000-pf.RepeatPM-pf.DamagePM-140-pf.EvolvePM && r < 1000-pf.RepeatPM-pf.DamagePM-110-pf.EvolvePM:
 			if broken {
 				sc.Steps = append(sc.Steps, Step{Kind: StepFix})
 			} else {
@@ -224,7 +224,15 @@ func genRun(tp *tape.Tape, pf Profile, pl Placement) Step {
 			st.Names = append(ns, st.Names[st.BadIdx:]...)
 		}
 	}
-	if tp.Chance(pf.InterjectPM, 1000) && !st.Stdout {
+	ipm := pf.InterjectPM
+	if pl.NeedsDirs && ipm > 0 {
+		ipm = 500 // directories moq creates are where another actor's file is most at risk
+		if tp.Bool() && st.Bad == "" {
+			st.Bad, st.BadIdx = "unknown", len(st.Names)
+			st.Names = append(st.Names, "Nope")
+		}
+	}
+	if tp.Chance(ipm, 1000) && !st.Stdout {
 		// another actor drops a file next to what moq just touched
 		st.Fault = &simos.Rule{Prim: []string{"mkdir", "mkdir", "open", "remove"}[tp.Int(4)], Nth: tp.Int(2), Action: "interject"}
 		return st
